@@ -624,3 +624,25 @@ def shielded_checkpoint_is_shielded(ctx, rule):
     ctx.ob(rule, csc, "cancel_shielded_checkpoint() yields inside `with CancelScope(shield=True)`", ok,
            detail="" if ok else "a yield of cancel_shielded_checkpoint is not shielded (or missing)", by=("shielded sleep(0)",))
     dominates_all_exits(ctx, rule, csc, "await sleep(0)", "cancel_shielded_checkpoint() yields on every path")
+
+
+# ----------------------------------------------------------------------------- rules of another property that this one rests on
+def shared_rules(ctx, modname: str, mapping: dict):
+    """run the rule module `modname` and keep, under this property's own rule ids, the obligations of the rules named in `mapping`
+    ({their id: our id}); everything else that module establishes is dropped here (it is reported by its own property's check)"""
+    import importlib
+    mod = importlib.import_module(f"sa.rules.{modname}")
+    n0 = len(ctx.obs)
+    info0 = len(ctx.info)
+    mod.check(ctx)
+    kept = []
+    for o in ctx.obs[n0:]:
+        if o.rule in mapping:
+            new = mapping[o.rule]
+            if o.key.startswith(o.rule):
+                o.key = new + o.key[len(o.rule):]
+            o.rule = new
+            kept.append(o)
+    ctx.obs[n0:] = kept
+    del ctx.info[info0:]
+    return kept
